@@ -257,13 +257,44 @@ def run_shard(modname, relname, tier, shard, nshards, n, seed, progress_file=Non
     last = {}
     sseed = derive_seed(seed, reg.prop, relname, shard)
 
+    import signal
+
+    class _CaseTimeout(BaseException):
+        pass
+
+    class _ShardGivesUp(BaseException):
+        pass
+
+    def _on_alarm(signum, frame):
+        raise _CaseTimeout()
+    limit = int(os.environ.get('VERIF_CASE_TIMEOUT', '240'))
+    try:
+        signal.signal(signal.SIGALRM, _on_alarm)
+        can_alarm = True
+    except (ValueError, AttributeError):
+        can_alarm = False
+
     def one(case):
         last['case'] = case
         if progress_file:
             with open(progress_file, 'w') as f:
                 json.dump(case, f)
         try:
-            rel.check(case, rec)
+            if can_alarm:
+                signal.alarm(limit)
+            try:
+                rel.check(case, rec)
+            finally:
+                if can_alarm:
+                    signal.alarm(0)
+        except _CaseTimeout:
+            # A single case that does not come back within the limit (every case takes seconds on the unchanged tree) is
+            # inconclusive, never a violation; it is counted and reported, and after three of them the shard stops.
+            rec.harness_errors['case exceeded %d s (inconclusive)' % limit] += 1
+            if len(rec.harness_examples) < 2:
+                rec.harness_examples.append(dict(error='case exceeded %d s' % limit, where='timeout', case=_trim(case, 800)))
+            if rec.harness_errors['case exceeded %d s (inconclusive)' % limit] >= 3:
+                raise _ShardGivesUp()
         except Reject:
             rec.rejected += 1
         except Violation:
@@ -294,6 +325,8 @@ def run_shard(modname, relname, tier, shard, nshards, n, seed, progress_file=Non
             t()
     except Violation as v:
         failure = dict(case=last.get('case'), msg=v.msg, sig=v.sig)
+    except _ShardGivesUp:
+        pass
     except Exception as e:  # harness error (or Hypothesis Flaky etc.)
         error = '%s: %s\n%s' % (type(e).__name__, e, traceback.format_exc()[-3000:])
         if last.get('case') is not None:
